@@ -514,7 +514,7 @@ def gen_deadlock(rng):
         roots = [("pe", 0, 1, 5)]
     elif kind_ == "orphan":
         models[2]["place"] = 1
-        models[0]["outs"] = [[("all", 0, ("m", 2, 0))]]; models[0]["handlers"][1] = [("snd", 0, "in")] * rng.randint(1, cap)
+        models[0]["outs"] = [[("all", 0, ("m", 2, 0))]]; models[0]["handlers"][1] = [("snd", 0, "in")] * rng.randint(1, cap + 2)
         roots = [("pe", 0, 1, 5)]
     elif kind_ == "orphan_query":
         models[2]["place"] = 1
